@@ -419,6 +419,31 @@ impl SendRequest<RequestMessage<Vec<u8>>> for Upstream {
 
 // ---------------------------------------------------------------- scenario
 
+/// A file that is read in pieces of any size, with reads that are
+/// interrupted (EINTR) in between, and that may fail for good at some offset.
+struct PiecemealReader {
+    data: Vec<u8>,
+    pos: usize,
+    fail_at: Option<usize>,
+}
+
+impl std::io::Read for PiecemealReader {
+    fn read(&mut self, buf: &mut [u8]) -> std::io::Result<usize> {
+        if self.fail_at.is_some_and(|at| self.pos >= at) {
+            return Err(std::io::Error::new(std::io::ErrorKind::Other, "input/output error"));
+        }
+        if sim::chance("anchor_file.eintr", 1, 5) {
+            sim::stat("fault.trust_anchor_file_read_interrupted");
+            return Err(std::io::ErrorKind::Interrupted.into());
+        }
+        let left = self.fail_at.unwrap_or(self.data.len()).min(self.data.len()) - self.pos;
+        let n = left.min(buf.len()).min(1 + sim::draw("anchor_file.piece", 64) as usize);
+        buf[..n].copy_from_slice(&self.data[self.pos..self.pos + n]);
+        self.pos += n;
+        Ok(n)
+    }
+}
+
 pub struct ValidatorScn;
 
 impl Scenario for ValidatorScn {
@@ -531,7 +556,35 @@ async fn run(_tier: Tier) {
     // The trust anchor: the root's DNSKEY, its DS, or both.
     let mut ta = TrustAnchors::empty();
     let ta_kind = sim::draw("cfg.trust_anchor", 4);
-    for text in [(ta_kind != 1).then_some(&w.trust_anchor_text), (ta_kind == 1 || ta_kind == 2).then_some(&w.trust_anchor_ds_text)].into_iter().flatten() {
+    let ta_texts: Vec<&String> = [(ta_kind != 1).then_some(&w.trust_anchor_text), (ta_kind == 1 || ta_kind == 2).then_some(&w.trust_anchor_ds_text)].into_iter().flatten().collect();
+    // A quarter of the runs the anchors come out of a file (`from_reader`)
+    // that is read in pieces of any size, with interrupted reads in between
+    // - and now and then fails for good somewhere: then there are no
+    // anchors from it at all (never the ones read so far), and the run
+    // carries on with anchors given as text.
+    let mut from_file = false;
+    if sim::chance("cfg.trust_anchor_from_reader", 1, 4) {
+        sim::stat("probe.trust_anchors_from_a_reader");
+        let text: String = ta_texts.iter().map(|t| format!("{}\n", t)).collect();
+        let fail_at = if sim::chance("anchor_file.read_error", 1, 5) { Some(sim::draw("anchor_file.read_error_at", text.len() as u64 + 1) as usize) } else { None };
+        let reader = PiecemealReader { data: text.into_bytes(), pos: 0, fail_at };
+        match (TrustAnchors::from_reader(reader), fail_at) {
+            (Ok(t), None) => {
+                ta = t;
+                from_file = true;
+            }
+            (Err(_), Some(_)) => sim::stat("fault.trust_anchor_file_read_error"),
+            (Ok(_), Some(at)) => {
+                sim::violation(P, "anchors", "anchors-from-a-file-that-could-not-be-read".to_string(), format!("reading the trust anchor file failed after {} octets and a set of trust anchors came back all the same", at));
+                return;
+            }
+            (Err(e), None) => {
+                sim::violation(P, "anchors", "anchor-file-refused".to_string(), format!("a well-formed trust anchor file read in pieces was refused: {:?}", e));
+                return;
+            }
+        }
+    }
+    for text in ta_texts.iter().filter(|_| !from_file) {
         if let Err(e) = ta.add_u8(text.as_bytes()) {
             sim::harness_error(format!("trust anchor: {:?}", e));
             return;
